@@ -12,8 +12,21 @@ stdout: '@@JSON ' + {"cases": [{"type":..,"n":..,"edges":..,"adj":..,"border":..
 Only public API / public attributes of the mesh are read.
 """
 import json
+import resource
+import signal
 import sys
 import traceback
+
+
+QUERY_TIMEOUT = 3
+
+
+class QueryTimeout(BaseException):
+    pass
+
+
+def _on_alarm(signum, frame):
+    raise QueryTimeout()
 
 
 def to_int(x):
@@ -119,6 +132,7 @@ def run_case(case):
     obs = []
     for q in case["queries"]:
         try:
+            signal.alarm(QUERY_TIMEOUT)       # a non-terminating back-tracking loop is an observation, not a hang
             exp = bool(q.get("export"))
             if q["f"] == "sp":
                 r = P.shortest_path(mesh, q["start"], mk_targets(q["targets"]), weights, exp)
@@ -155,13 +169,24 @@ def run_case(case):
                 obs.append(o)
             else:
                 raise ValueError(q["f"])
+        except QueryTimeout:
+            obs.append(["timeout", "no answer within %d s" % QUERY_TIMEOUT])
+        except MemoryError:
+            obs.append(["timeout", "memory exhausted"])
         except Exception as ex:  # noqa
             obs.append(canon_exc(ex))
+        finally:
+            signal.alarm(0)
     return {"type": type(mesh).__name__, "n": n, "edges": edges, "adj": adj, "border": border, "coords": coords,
             "wnum": wnum, "obs": obs}
 
 
 def main():
+    signal.signal(signal.SIGALRM, _on_alarm)
+    try:
+        resource.setrlimit(resource.RLIMIT_AS, (6 << 30, 6 << 30))
+    except Exception:  # noqa
+        pass
     payload = json.load(sys.stdin)
     out = []
     for case in payload["cases"]:
